@@ -49,7 +49,6 @@ theorem evaluate_err_false (re : RegexOracle) (e : Expr) (o : Opts) (d : Any) (b
     · cases h; rfl
     · cases h
     · cases h
-    · cases h
     · split at h
       · split at h
         · cases h; rfl
@@ -58,22 +57,15 @@ theorem evaluate_err_false (re : RegexOracle) (e : Expr) (o : Opts) (d : Any) (b
       · exact collLoop_err _ _ _ _ _ _ h
       · cases h; rfl
 
-/-- `pointerstructure.Get` does not panic on the datum (any path, any configuration).  Since the
-    map key types formerly answered `unmodelled` are modelled, the model shows what the library
-    really does: on a map keyed by a pointer type that leads to an array of an uncomparable element
-    type (`map[*[1][]int]V`) EVERY lookup panics inside `mapstructure.decodeArray`, and `Evaluate`
-    with it (observed on the real code; finding F12).  `Props/C09Keys.lean` / `Proofs/Keys.lean` say
-    exactly when: `getMap_panic_iff` (the key type alone decides, `decodePanics`), `getStep_panic` (a
-    step panics only at such a map), `decodePanics_of_ptrFree` (never without a pointer in the key
-    type). -/
-abbrev GetNoPanic (d : Any) : Prop := Bexpr.Proofs.Total.GetNoPanic d
-
-/-- 2. `evaluate` never panics on a parser-shaped expression, a well-formed datum on which the
-    library's `Get` does not panic, and well-formed options. -/
+/-- 2. `evaluate` never panics on a parser-shaped expression, a well-formed datum and
+    well-formed options.  Every map key type is inside the model (nothing is answered `unmodelled`
+    for a key type, `C09Keys.get_ne_unmodelled`), so this covers the one place where a LIBRARY
+    panics — `pointerstructure.Get` on a map keyed like `map[*[1][]int]V`, `GetErr.panic`,
+    `C09Keys.getMap_panic_iff` — because `getValue` recovers it (`safeGet`, repair of finding F12):
+    `C09Keys.evaluate_recovers_walk_panic`. -/
 theorem evaluate_no_panic (re : RegexOracle) (e : Expr) (o : Opts) (d : Any) :
-    e.parserShaped = true → Any.wf d = true → GetNoPanic d → OptsWf o →
-    evaluate re e o d ≠ .panic := by
-  intro hs hd hp
+    e.parserShaped = true → Any.wf d = true → OptsWf o → evaluate re e o d ≠ .panic := by
+  intro hs hd
   induction e generalizing o with
   | not e ih =>
     intro ho
@@ -103,7 +95,7 @@ theorem evaluate_no_panic (re : RegexOracle) (e : Expr) (o : Opts) (d : Any) :
     intro ho
     simp only [Expr.parserShaped] at hs
     simp only [evaluate]
-    exact evaluateMatch_no_panic _ _ _ _ _ _ hs ho hd hp
+    exact evaluateMatch_no_panic _ _ _ _ _ _ hs ho hd
   | coll op sel bd inner ih =>
     intro ho
     simp only [Expr.parserShaped] at hs
@@ -113,8 +105,6 @@ theorem evaluate_no_panic (re : RegexOracle) (e : Expr) (o : Opts) (d : Any) :
     split
     · simp
     · simp
-    · rename_i hv
-      exact absurd hv (getValue_ne_panic o d _ hp)
     · simp
     · split
       · split
@@ -136,16 +126,15 @@ theorem evaluate_no_panic (re : RegexOracle) (e : Expr) (o : Opts) (d : Any) :
 /-- 3. Property C09: `Evaluate` is total — it never panics (on parser-produced trees and
     well-formed inputs), and an error always comes with `false`. -/
 theorem evaluate_total (re : RegexOracle) (e : Expr) (o : Opts) (d : Any) :
-    (e.parserShaped = true → Any.wf d = true → GetNoPanic d → OptsWf o →
-      evaluate re e o d ≠ .panic) ∧
+    (e.parserShaped = true → Any.wf d = true → OptsWf o → evaluate re e o d ≠ .panic) ∧
     (∀ b, evaluate re e o d = .err b → b = false) :=
   ⟨evaluate_no_panic re e o d, fun b => evaluate_err_false re e o d b⟩
 
 /-- `(*Evaluator).Evaluate` (options rebuilt from the evaluator's fields, no locals). -/
 theorem Evaluator_evaluate_no_panic (re : RegexOracle) (ev : Evaluator) (d : Any)
-    (hs : ev.ast.parserShaped = true) (hd : Any.wf d = true) (hp : GetNoPanic d)
+    (hs : ev.ast.parserShaped = true) (hd : Any.wf d = true)
     (hu : ∀ u, ev.unknown = some u → Any.wf u = true) : ev.evaluate re d ≠ .panic :=
-  evaluate_no_panic re ev.ast _ d hs hd hp ⟨hu, fun _ hm => nomatch hm⟩
+  evaluate_no_panic re ev.ast _ d hs hd ⟨hu, fun _ hm => nomatch hm⟩
 
 theorem Evaluator_evaluate_err_false (re : RegexOracle) (ev : Evaluator) (d : Any) (b : Bool) :
     ev.evaluate re d = .err b → b = false :=
@@ -154,23 +143,13 @@ theorem Evaluator_evaluate_err_false (re : RegexOracle) (ev : Evaluator) (d : An
 /-- 4a. The nil filter returns its input. -/
 theorem execute_nil (re : RegexOracle) (data : Any) : execute re none data = .ok data := rfl
 
-/-- the values `Execute` hands to the evaluator: the elements of a slice / array, the values of a
-    map -/
-def execElems : Any → List GoVal
-  | some (.array _ xs) => xs
-  | some (.slice _ _ _ xs) => xs
-  | some (.map _ _ _ _ es) => es.map (·.2)
-  | _ => []
-
-/-- 4b. `(*Filter).Execute` never panics on a parser-shaped filter and well-formed data on whose
-    elements the library's `Get` does not panic. -/
+/-- 4b. `(*Filter).Execute` never panics on a parser-shaped filter and well-formed data. -/
 theorem execute_no_panic (re : RegexOracle) (ev : Evaluator) (data : Any)
     (hs : ev.ast.parserShaped = true) (hd : Any.wf data = true)
-    (hp : ∀ x, x ∈ execElems data → GetNoPanic x.toAny)
     (hu : ∀ u, ev.unknown = some u → Any.wf u = true) :
     execute re (some ev) data ≠ .panic := by
-  have hev : ∀ x : GoVal, x ∈ execElems data → x.wf = true → ev.evaluate re x.toAny ≠ .panic :=
-    fun x hm hx => Evaluator_evaluate_no_panic re ev _ hs (toAny_wf x hx) (hp x hm) hu
+  have hev : ∀ x : GoVal, x.wf = true → ev.evaluate re x.toAny ≠ .panic :=
+    fun x hx => Evaluator_evaluate_no_panic re ev _ hs (toAny_wf x hx) hu
   unfold execute
   simp only [valueOf]
   split
@@ -182,7 +161,7 @@ theorem execute_no_panic (re : RegexOracle) (ev : Evaluator) (data : Any)
     · simp
     · rename_i o ho
       exact outToExec_ne_panic
-        (execSliceLoop_ne_panic _ _ _ _ (fun x hx => hev x (by simpa [execElems, *] using hx) (wfList_mem hw hx).2) ho)
+        (execSliceLoop_ne_panic _ _ _ _ (fun x hx => hev x (wfList_mem hw hx).2) ho)
   · rename_i name elem nil xs
     have hw := (Any_wf_some.mp hd).2
     simp only [GoVal.wf] at hw
@@ -190,7 +169,7 @@ theorem execute_no_panic (re : RegexOracle) (ev : Evaluator) (data : Any)
     · simp
     · rename_i o ho
       exact outToExec_ne_panic
-        (execSliceLoop_ne_panic _ _ _ _ (fun x hx => hev x (by simpa [execElems, *] using hx) (wfList_mem hw hx).2) ho)
+        (execSliceLoop_ne_panic _ _ _ _ (fun x hx => hev x (wfList_mem hw hx).2) ho)
   · rename_i name kt vt nil es
     have hw := (Any_wf_some.mp hd).2
     simp only [GoVal.wf, Bool.and_eq_true] at hw
@@ -198,9 +177,7 @@ theorem execute_no_panic (re : RegexOracle) (ev : Evaluator) (data : Any)
     · simp
     · rename_i o ho
       exact outToExec_ne_panic
-        (execMapLoop_ne_panic _ _ _ _ (fun e he => hev e.2
-          (by simp only [execElems, *, List.mem_map]; exact ⟨e, he, rfl⟩)
-          (wfEntries_mem hw.1 he).2.2.2) ho)
+        (execMapLoop_ne_panic _ _ _ _ (fun e he => hev e.2 (wfEntries_mem hw.1 he).2.2.2) ho)
   · simp
 
 /-! ## Non-vacuity: concrete data and expressions satisfying the hypotheses
@@ -265,9 +242,9 @@ example : evaluate re0 (.match_ ⟨.bexpr, [[77]]⟩ .isEmpty none) opts0 sdatum
 example : evaluate re0 (.match_ ⟨.bexpr, [[83], [65]]⟩ .equal (some [55])) opts0 sdatum
     = .val true := by decide
 
-/-- the conclusion of the theorem on this datum, by evaluation (the theorem itself is instantiated
-    for `execute_no_panic` below, where `GetNoPanic` is discharged by computing `Get`) -/
-example : evaluate re0 eIn opts0 sdatum ≠ .panic := by decide
+/-- the theorem instantiated -/
+example : evaluate re0 eIn opts0 sdatum ≠ .panic :=
+  evaluate_no_panic _ _ _ _ (by decide) (by decide) opts0_wf
 
 /-! On the map datum the key lookup goes through `keyEq` (well-founded recursion, irreducible
     for the kernel evaluator), so the three `Get`s are computed by `simp` with the equations of
@@ -275,7 +252,7 @@ example : evaluate re0 eIn opts0 sdatum ≠ .panic := by decide
 
 theorem fkeyEq_str (n m : String) (a b : GoString) :
     fkeyEq (.str n a) (.str m b) = (n == m && a == b) := by
-  simp [fkeyEq, keyEq, unboxKey, keyEqScalar, keyEqV, keyEqV]
+  simp [fkeyEq, keyEq, unboxKey, keyEqScalar, keyEqV]
 
 theorem get_L : Go.get opts0.cfg [[76]] mdatum = .ok (some ptrList) := by
   simp [Go.get, mdatum, getLoop, getStep, valueOf, unwrapForStep, unwrapIfaceV, unwrapPtrV,
@@ -314,17 +291,7 @@ example : evaluate re0 eNot opts0 mdatum = .err false := by
 def ev0 : Evaluator :=
   { ast := eIn, tagName := [98], hook := .off, unknown := none, expression := [] }
 example : execute re0 (some ev0) (some ptrList) ≠ .panic :=
-  execute_no_panic _ _ _ (by decide) (by decide)
-    (by
-      -- no element of `[]*int` is (or leads to) a map: `Get` fails with ErrInvalidKind at once
-      intro x hx cfg parts
-      have hx' : x = .ptr intT (some (.int .int "" 1)) ∨ x = .ptr intT none ∨
-          x = .ptr intT (some (.int .int "" 2)) := by
-        simpa [execElems, ptrList] using hx
-      rcases hx' with rfl | rfl | rfl <;> cases parts <;>
-        simp [Go.get, getLoop, getStep, valueOf, GoVal.toAny, unwrapForStep, unwrapIfaceV,
-          unwrapPtrV])
-    (fun _ h => nomatch h)
+  execute_no_panic _ _ _ (by decide) (by decide) (fun _ h => nomatch h)
 
 /-! The hypotheses are not superfluous: dropping either one makes the model panic. -/
 
